@@ -185,6 +185,60 @@ fn run_case(out: &mut impl Write, rng: &mut Rng) {
     .unwrap();
 }
 
+/// items without drop glue (`u32`): nothing to count, but the matcher columns filled for them own heap buffers that
+/// must be freed with the vector
+fn run_plain_case(out: &mut impl Write, rng: &mut Rng) {
+    let cap = *rng.pick(&[0u32, 1, 33, 1024]);
+    let cols = 1 + rng.below(3) as u32;
+    let nops = 1 + rng.below(6) as usize;
+    let mut next = 100u32;
+    let ops: Vec<(bool, Vec<u32>)> = (0..nops)
+        .map(|_| {
+            let n = if rng.chance(1, 2) { 1 } else { [0usize, 3, 30, 33, 70][rng.below(5) as usize] };
+            let vals: Vec<u32> = (0..n).map(|_| { next += 1; next }).collect();
+            (n == 1 && rng.chance(1, 2), vals)
+        })
+        .collect();
+    let before = LIVE.load(Ordering::SeqCst);
+    let mut readable = true;
+    {
+        let vec: BVec<u32> = BVec::with_capacity(cap, cols);
+        for (single, vals) in &ops {
+            if *single {
+                vec.push(vals[0], |t, c| {
+                    for j in 0..c.len() {
+                        c[j] = format!("{}:{j} some text that needs a heap buffer", t).into();
+                    }
+                });
+            } else {
+                vec.extend(vals.clone().into_iter(), |t, c: &mut [Utf32String]| {
+                    for j in 0..c.len() {
+                        c[j] = format!("{}:{j} some text that needs a heap buffer", t).into();
+                    }
+                });
+            }
+        }
+        for i in 0..vec.count().min(5000) {
+            if let Some(item) = vec.get(i) {
+                if !item.matcher_columns[0].to_string().starts_with(&format!("{}:0", item.data)) {
+                    readable = false;
+                }
+            }
+        }
+    }
+    let live = LIVE.load(Ordering::SeqCst) - before;
+    writeln!(
+        out,
+        "D kind=plain cap={} cols={} ops={} live={} readable={}",
+        cap,
+        cols,
+        ops.iter().map(|(s, v)| format!("{}{}", if *s { "p" } else { "e" }, v.len())).collect::<Vec<_>>().join(","),
+        live,
+        if readable { "ok" } else { "BAD" }
+    )
+    .unwrap();
+}
+
 fn main() {
     std::panic::set_hook(Box::new(|_| {}));
     let args: Vec<String> = std::env::args().collect();
@@ -195,7 +249,11 @@ fn main() {
     let mut lines = Vec::new();
     for _ in 0..count {
         let mut buf = Vec::new();
-        run_case(&mut buf, &mut rng);
+        if rng.chance(1, 4) {
+            run_plain_case(&mut buf, &mut rng);
+        } else {
+            run_case(&mut buf, &mut rng);
+        }
         lines.push(buf);
     }
     let mut out = BufWriter::new(stdout.lock());
